@@ -200,6 +200,77 @@ def r1_7(ctx):
               "Expectation::matches is %s" % r.show()[:160])
 
 
+TRIMMING = ("trim", "trim_end", "trim_start", "trim_ascii", "trim_ascii_end", "trim_ascii_start", "is_whitespace", "is_ascii_whitespace",
+            "is_ascii_control", "is_control", "lines", "split_whitespace", "to_lowercase", "to_uppercase", "to_ascii_lowercase", "to_ascii_uppercase")
+
+
+def _all_consts(body):
+    """(ConstVal, where) of every constant operand in the body, plus the values of switches over u8 / char"""
+    from ..facts import ConstVal
+    out = []
+
+    def rec(j, where):
+        if isinstance(j, dict):
+            c = j.get("const")
+            if isinstance(c, dict) and "ty" in c:
+                out.append((ConstVal(c), where))
+            for v in j.values():
+                rec(v, where)
+        elif isinstance(j, list):
+            for v in j:
+                rec(v, where)
+    for bi, blk in enumerate(body.blocks):
+        if blk["cleanup"]:
+            continue
+        for si, st in enumerate(blk["stmts"]):
+            rec(st, stmt_loc(body, bi, si))
+        rec(blk["term"], body.loc(bi))
+    return out
+
+
+def r1_9(ctx):
+    """what the rules compare is `trim_newlines(line)`: that helper removes line feeds and nothing else - no other character is named in
+    it (a `\r` kept by keep_crlf, blanks, tabs are content that the expectation has to describe)"""
+    prog = ctx.prog
+    bodies = [b for b in prog.bodies if b.crate == "scrut-lib" and b.promoted is None and ".rs" in (b.where() or "") and "src/newline.rs" in b.where()
+              and any(w in b.path.split("::")[-1] or (b.kind == "Closure" and w in b.path) for w in ("trim_newlines", "ends_in_newline"))]
+    if len(bodies) < 3:
+        raise AnchorError("src/newline.rs: expected trim_newlines (bytes, str) and ends_in_newline, found %s" % [b.npath for b in bodies])
+    nconst = 0
+    for b in bodies:
+        odd, seen = [], []
+        for c, where in _all_consts(b):
+            v = None
+            if c.ty in ("u8", "char"):
+                v = c.as_int()
+                v = None if v is None else bytes([v]) if v < 256 else chr(v).encode()
+            elif c.ty in ("&str", "&[u8]") or c.ty.startswith("&[u8;"):
+                v = c.as_bytes()
+            if v is None:
+                continue
+            seen.append(v)
+            if v.strip(b"\n"):
+                odd.append((v, where))
+        for bi, blk in enumerate(b.blocks):
+            t = blk["term"]
+            if t["k"] == "switch" and not blk["cleanup"]:
+                pl = t["discr"].get("move") or t["discr"].get("copy")
+                if pl is not None and b.lty(pl["l"]) in ("u8", "char"):
+                    for val in t.get("values", []):
+                        seen.append(bytes([int(val)]) if int(val) < 256 else chr(int(val)).encode())
+                        if int(val) != 10:
+                            odd.append((seen[-1], b.loc(bi)))
+        calls = sorted({mname(t) for _, t in b.calls() if mname(t).split("::")[-1] in TRIMMING})
+        nconst += len(seen)
+        ctx.check(not odd and not calls, "newline-only:" + b.npath.replace("newline::", ""), odd[0][1] if odd else b.where(),
+                  "%s names no character but `\\n` (%d constant(s)) and calls no whitespace trimming" % (b.npath, len(seen)),
+                  "%s also removes / tests %s%s: a line that ends in such a character is compared without it, so e.g. `foo\\r\\n` (keep_crlf) is accepted by "
+                  "`foo (glob)` / `fo+ (regex)` / `foo (escaped)` although the expectation does not describe the carriage return" % (
+                      b.npath, sorted({repr(v) for v, _ in odd}), (" via " + ", ".join(calls)) if calls else ""))
+    if nconst < 2:
+        ctx.bad("newline-consts", "src/newline.rs", "only %d character constants seen in the newline trimmers (>= 2 expected: `\\n` in ends_in_newline and strip_suffix)" % nconst)
+
+
 def run(ctx):
     for rule in ("R1.1", "R1.2", "R1.3", "R1.4", "R1.5"):
         ctx.run_rule(rule, TEXT[rule], _mk(rule), floor={"R1.1": 3, "R1.2": 6, "R1.3": 4, "R1.4": 4, "R1.5": 4}[rule])
@@ -207,3 +278,4 @@ def run(ctx):
     ctx.run_rule("R1.7", "Expectation::matches forwards to the rule unchanged [E-FLOW]", r1_7, floor=1)
     from . import c04
     ctx.run_rule("R1.8", "a Matched record is only as good as Rule::matches: per Rule impl the line reaches the whole-line comparator through the documented transforms only (shared with C04 R4.2) [E-FLOW]", c04.r4_2, floor=8)
+    ctx.run_rule("R1.9", "the compared text is the line without its line feed(s) only: trim_newlines / ends_in_newline name no character but `\\n` and call no whitespace trimming [E-TABLE of constants]", r1_9, floor=3)
